@@ -67,6 +67,32 @@ def run(ck: Check, prog: Program) -> None:
             ck.finding('VALID-ORDER', vm.qualname, 'bind / schema validation / return order', vm.module.rel, vm.node.lineno,
                        f'{ci.name}.validate_method can return arguments that were not bound to the signature'
                        f'{"" if ci.qualname == BASEVAL else " and validated against the schema"} first: a non-conforming call would be executed')
+        # VALID-SUBJECT: the schema is applied to the BOUND arguments (and those are what is returned), not to the raw params
+        if ci.qualname != BASEVAL:
+            bound_vars = set()
+            for n in bind_nodes:
+                if isinstance(n.ast, ast.Assign):
+                    bound_vars |= {t.id for t in n.ast.targets if isinstance(t, ast.Name)}
+            subj_ok = True
+            why = ''
+            for n in schema_nodes:
+                for c in calls_in(n):
+                    if any(k == 'ext' and str(o) == 'jsonschema.validate' for k, o in ty.callees(c, sc)):
+                        a0 = c.args[0] if c.args else None
+                        if a0 is None or dotted(a0) not in bound_vars:
+                            subj_ok = False
+                            why = f'`{norm(c)[:70]}` validates `{norm(a0) if a0 is not None else "?"}`'
+            for r_ in ret_nodes:
+                if r_.ast.value is not None and isinstance(r_.ast.value, ast.Name) and r_.ast.value.id not in bound_vars and \
+                        ci.name == 'JsonSchemaValidator':
+                    subj_ok = False
+                    why = f'returns `{norm(r_.ast.value)}`'
+            if ci.name == 'JsonSchemaValidator':
+                ck.ob('VALID-SUBJECT', f'{ci.name}: the schema is checked against the bound-argument mapping, which is also what is returned', subj_ok)
+                if not subj_ok:
+                    ck.finding('VALID-SUBJECT', vm.qualname, 'schema applied to something other than the bound arguments', vm.module.rel, vm.node.lineno,
+                               f'{why} instead of the mapping produced by binding: for signatures with **kwargs / defaults / positional passing the two '
+                               f'differ, so non-conforming calls are executed or conforming ones refused')
         # FWD-PARAM(exclude)
         fwd = False
         for x in walk_own(vm.node):
